@@ -7,6 +7,7 @@ import (
 	"crypto/rsa"
 	"crypto/x509"
 	"encoding/base64"
+	"errors"
 	"fmt"
 	"html"
 	"html/template"
@@ -14,6 +15,7 @@ import (
 	"math/rand"
 	"net/http"
 	"reflect"
+	"regexp"
 	"strings"
 	"time"
 
@@ -365,7 +367,17 @@ type c06Input struct {
 	customMaker    bool           // idp.AssertionMaker set (delegates to DefaultAssertionMaker)
 	customTemplate bool           // idp.ResponseFormTemplate set
 	viaHandler     bool           // enter through idp.Handler() instead of calling ServeSSO directly
+	// history: the step runs on a long-lived IdentityProvider / registry instead of fresh ones
+	world          *idpWorld
+	failWrite      int      // > 0: the ResponseWriter accepts this many body bytes, then fails (delivery fails)
+	shortWrite     bool     // with failWrite: a short write instead of an error
+	failTemplate   bool     // the configured ResponseFormTemplate fails part-way
+	foreignMarkers []string // markers of OTHER requests of the same history: must occur nowhere in what this step writes
 }
+
+var c06FailingTemplate = template.Must(template.New("failing-form").Funcs(template.FuncMap{"boom": func() (string, error) {
+	return "", errors.New("template data source failed")
+}}).Parse(`<html><form method="post" action="{{.URL}}"><input type="hidden" name="SAMLResponse" value="{{.SAMLResponse}}" />{{boom}}</form></html>`))
 
 type countingMaker struct{ calls int }
 
@@ -401,8 +413,16 @@ func runResponseWith(c *Ctx, in c06Input, encSource io.Reader) (res c06Result) {
 		defer func() { time.Local = oldLocal }()
 		in.now, in.tnow, in.sess.Create = in.now.In(in.zone), in.tnow.In(in.zone), in.sess.Create.In(in.zone)
 	}
-	reg := &stubRegistry{entries: []mRegEntry{{ID: in.regKey, Kind: "found", MD: in.md}}}
-	idp := newIDP(in.cfg, reg, in.sess.toSAML())
+	var idp *saml.IdentityProvider
+	if in.world != nil { // the long-lived value, re-configured in place
+		idp = in.world.idp
+		in.world.setSP(in.regKey, in.md)
+		configureIDP(idp, in.cfg, in.sess.toSAML())
+	} else {
+		reg := &stubRegistry{entries: []mRegEntry{{ID: in.regKey, Kind: "found", MD: in.md}}}
+		idp = newIDP(in.cfg, reg, in.sess.toSAML())
+	}
+	idp.Intermediates, idp.AssertionMaker, idp.ResponseFormTemplate = nil, nil, nil
 	if in.intermediates {
 		idp.Intermediates = []*x509.Certificate{fix.Cert("rsa_3072")}
 	}
@@ -413,6 +433,15 @@ func runResponseWith(c *Ctx, in c06Input, encSource io.Reader) (res c06Result) {
 	}
 	if in.customTemplate {
 		idp.ResponseFormTemplate = c06CustomTemplate
+	}
+	if in.failTemplate {
+		idp.ResponseFormTemplate = c06FailingTemplate
+	}
+	wrapW := func(w http.ResponseWriter) http.ResponseWriter {
+		if in.failWrite > 0 {
+			return &failingWriter{ResponseWriter: w, limit: in.failWrite, short: in.shortWrite}
+		}
+		return w
 	}
 	defer func() {
 		if res.kind == "form" {
@@ -449,7 +478,7 @@ func runResponseWith(c *Ctx, in c06Input, encSource io.Reader) (res c06Result) {
 		if in.wire == nil {
 			hr = httptestGet(in.cfg.SSOURL)
 			hr.RemoteAddr = in.addr
-			rec := observeHTTP(func(w http.ResponseWriter) { idp.ServeIDPInitiated(w, hr, in.regKey, in.relay) })
+			rec := observeHTTP(func(w http.ResponseWriter) { idp.ServeIDPInitiated(wrapW(w), hr, in.regKey, in.relay) })
 			if rec.Kind == "panic" {
 				panic(rec.Body)
 			}
@@ -464,9 +493,9 @@ func runResponseWith(c *Ctx, in c06Input, encSource io.Reader) (res c06Result) {
 		if in.viaServe {
 			rec := observeHTTP(func(w http.ResponseWriter) {
 				if in.viaHandler {
-					idp.Handler().ServeHTTP(w, hr)
+					idp.Handler().ServeHTTP(wrapW(w), hr)
 				} else {
-					idp.ServeSSO(w, hr)
+					idp.ServeSSO(wrapW(w), hr)
 				}
 			})
 			if rec.Kind == "panic" {
@@ -492,14 +521,14 @@ func runResponseWith(c *Ctx, in c06Input, encSource io.Reader) (res c06Result) {
 			return
 		}
 		rec := observeHTTP(func(w http.ResponseWriter) {
-			if err := req.WriteResponse(w); err != nil {
+			if err := req.WriteResponse(wrapW(w)); err != nil {
 				http.Error(w, err.Error(), 500)
 			}
 		})
 		if rec.Kind == "panic" {
 			panic(rec.Body)
 		}
-		res.kind, res.detail, body = "err", fmt.Sprintf("WriteResponse: %s", strings.TrimSpace(rec.Body)), rec.Body
+		res.kind, res.detail, body = "err", fmt.Sprintf("WriteResponse: %.200s", strings.TrimSpace(rec.Body)), rec.Body
 		if rec.Kind == "form" {
 			res.kind, res.detail = "form", ""
 		}
@@ -510,6 +539,35 @@ func runResponseWith(c *Ctx, in c06Input, encSource io.Reader) (res c06Result) {
 	}
 	return res
 }
+
+// pageProblems: a written page holds exactly one form with one SAMLResponse, and nothing of another
+// request of the same history (its markers, in clear or inside any base64 value of the page)
+func pageProblems(page string, foreign []string) []string {
+	var out []string
+	if n := strings.Count(page, "<form"); n != 1 {
+		out = append(out, fmt.Sprintf("%d forms in the written page", n))
+	}
+	if n := strings.Count(page, `name="SAMLResponse"`); n != 1 {
+		out = append(out, fmt.Sprintf("%d SAMLResponse fields in the written page", n))
+	}
+	if len(foreign) > 0 {
+		hay := [][]byte{[]byte(page)}
+		for _, m := range pageValueRe.FindAllStringSubmatch(page, -1) {
+			if x, err := base64.StdEncoding.DecodeString(html.UnescapeString(m[1])); err == nil {
+				hay = append(hay, x)
+			}
+		}
+		for _, h := range hay {
+			if f := scanMarkers(h, foreign); len(f) > 0 {
+				out = append(out, fmt.Sprintf("data of another request of this history in the written page: %v", f[:1]))
+				break
+			}
+		}
+	}
+	return out
+}
+
+var pageValueRe = regexp.MustCompile(`value="([^"]{40,})"`)
 
 func rqTerm(w *mWire, issue time.Time) string {
 	if w == nil {
@@ -532,6 +590,7 @@ func extraChecks(in c06Input, res c06Result) []string {
 	r := res.form.Resp
 	var out []string
 	out = append(out, res.optionProblems...)
+	out = append(out, pageProblems(res.html, in.foreignMarkers)...)
 	if bytes.Contains(res.form.XML, []byte("META-ONLY")) || (r.Enc != nil && bytes.Contains(r.Enc.PlainXML, []byte("META-ONLY"))) {
 		out = append(out, "data that exists only in the SP's metadata (RequestedAttribute values, service names) is echoed in the response")
 	}
@@ -704,6 +763,17 @@ func runC06(c *Ctx) {
 	for i := 0; i < 4; i++ {
 		gst = append(gst, c.Group(fmt.Sprintf("steps%d", i), []string{"IdPModel"}, "c08scase", "check_c06s"))
 	}
+	// histories on one long-lived IdentityProvider / registry
+	gh := []*Group{c.Group("hist0", []string{"IdPModel"}, "c06case", "check_c06"), c.Group("hist1", []string{"IdPModel"}, "c06case", "check_c06")}
+	hn := 0
+	rounds := 2
+	if c.Thorough() {
+		rounds = 20
+	}
+	runHistories(c, func(in c06Input, _ []mKeyDesc, _ []string, key map[string]string) {
+		c06Emit(c, gh[hn%2], in, key)
+		hn++
+	}, rounds)
 	n := 700
 	if c.Thorough() {
 		n = 12000
